@@ -203,3 +203,74 @@ func vh_C11_encoder_closed_after_last_use() {
 	vAssert(tr.framesAtDict == len(tr.frames), "no frame written after the encoder was closed")
 	vCover(delayed && len(tr.frames) > queuedBefore, "queued-frames-flushed-by-close")
 }
+
+// ---------------------------------------------------------------------------
+// C11 (encoder clause, close racing the negotiation): an engine-provided
+// encoder that gets installed on the transport is closed exactly once, also
+// when close() lands while connectCmd is inside the engine (a slow
+// NewDictionaryConnection / Dictionary call). The transport below behaves like
+// the real one: closing before anything is installed closes nothing.
+
+type vC11Codec struct{ closes int }
+
+func (c *vC11Codec) Dictionary() *protocol.Dictionary { return &protocol.Dictionary{Id: "d1", Data: []byte{1}} }
+func (c *vC11Codec) Encode(frame []byte) ([]byte, bool) { return frame, false }
+func (c *vC11Codec) Close()                             { c.closes++ }
+
+type vC11Engine struct {
+	codec *vC11Codec
+	hook  func()
+}
+
+func (e *vC11Engine) NewDictionaryConnection(p DictionaryConnectionParams) DictionaryConnection {
+	if e.hook != nil {
+		e.hook()
+	}
+	return e.codec
+}
+
+type vC11InstallTransport struct {
+	*vTransport
+	installed DictionaryConnection
+}
+
+func (t *vC11InstallTransport) SetDictionaryCompression(cc DictionaryConnection) { t.installed = cc }
+func (t *vC11InstallTransport) CloseDictionaryCompression() {
+	if t.installed != nil {
+		t.installed.Close()
+		t.installed = nil
+	}
+}
+
+func vh_C11_close_during_negotiation() {
+	codec := &vC11Codec{}
+	eng := &vC11Engine{codec: codec}
+	n := vNewNode(Config{DictionaryCompression: eng})
+	n.OnConnecting(func(ctx context.Context, e ConnectEvent) (ConnectReply, error) { return ConnectReply{}, nil })
+	n.OnConnect(func(c *Client) {})
+	tr := &vC11InstallTransport{vTransport: vNewTransport()}
+	ctx := SetCredentials(context.Background(), &Credentials{UserID: "u"})
+	c, _, err := NewClient(ctx, n, tr)
+	vAssert(err == nil, "new client")
+	when := vChoice("close_lands", 3) // 0 inside the engine call, 1 after connect, 2 before connect
+	if when == 0 {
+		eng.hook = func() {
+			go func() { _ = c.close(DisconnectForceNoReconnect) }()
+			vSettle() // close() runs to completion while the engine call is in flight
+		}
+	}
+	if when == 2 {
+		_ = c.close(DisconnectForceNoReconnect)
+	}
+	vConnect(c)
+	vSettle()
+	if when == 1 {
+		_ = c.close(DisconnectForceNoReconnect)
+	}
+	vSettle()
+	vAssert(tr.closed, "connection closed")
+	vAssert(tr.installed == nil, "no encoder left installed on a closed connection")
+	vAssert(codec.closes <= 1, "encoder closed at most once")
+	vCover(when == 0 && codec.closes == 1, "closed-after-racing-install")
+	vCover(when == 1 && codec.closes == 1, "closed-by-close")
+}
